@@ -246,6 +246,25 @@ func c19Gen(tier string, emit func(any)) {
 	}
 }
 
+// seqsEach calls fn for every sequence over alphabet of length 0..n without materialising the
+// whole set (the slice passed to fn is reused).
+func seqsEach(alphabet []string, n int, fn func([]string)) {
+	cur := make([]string, 0, n)
+	var rec func()
+	rec = func() {
+		fn(cur)
+		if len(cur) == n {
+			return
+		}
+		for _, a := range alphabet {
+			cur = append(cur, a)
+			rec()
+			cur = cur[:len(cur)-1]
+		}
+	}
+	rec()
+}
+
 func contains(ss []string, s string) bool {
 	for _, x := range ss {
 		if x == s {
